@@ -22,9 +22,10 @@ It is false on the pinned code: `final_counterexample` (PF-09, `ForLoopPulseTemp
 `hold` segment *specifies* its last entry as final value (`final_table_hold_specified`), which is not the value the
 voltage ends on.  What is proved (`*_partial`): the statement for the constructor subset `supported` (constant,
 table — all three interpolations, padding to the common duration —, function affine in `t`, sequence, repetition,
-iteration — every range shape —, mapping with renamed / dropped channels), with the initial / final clause under the hypothesis that the path of the closed form runs through none
-of the documented classes (`pathTags … = .ok []`).  Point pulses, parallel channels, atomic multi channel,
-arithmetic and time reversal templates are covered by the correspondence run only.
+iteration — every range shape —, mapping with renamed / dropped channels, time reversal (which implements the
+integral only)), with the initial / final clause under the hypothesis that the path of the closed form runs through none
+of the documented classes (`pathTags … = .ok []`).  Point pulses, parallel channels, atomic multi channel and
+arithmetic templates are covered by the correspondence run only.
 The range arithmetic (`range_*`, `final_index_eq_last_iff`) and `pad_holds_final` are proved in full.
 -/
 namespace QP.Props.C07
